@@ -552,6 +552,7 @@ def check(ctx: Ctx) -> None:
 
 F = "pipefunc/map/_mapspec.py"
 MUTANTS = [
+    Mutant("rename-one-after-the-other", F, "        if not any(name in renames for name in self.input_names + self.output_names):\n            return self\n", "        if not any(name in renames for name in self.input_names + self.output_names):\n            return self\n        spec = self\n        for old, new in renames.items():\n            spec = spec.rename({old: new}) if len(renames) > 1 else spec\n        if len(renames) > 1:\n            return spec\n", ("C08.3-all-outputs",), why="round-8 seed C08/22"),
     Mutant("print-semicolon", F, 'return f"{self.name}[{\', \'.join(indices)}]"', 'return f"{self.name}[{\'; \'.join(indices)}]"', ("C08.1-tokens",)),
     Mutant("colon-not-parsed", F, 'return tuple(i if i != ":" else None for i in indices)', "return tuple(i for i in indices)", ("C08.1-tokens",)),
     Mutant("from-string-swapped", F, "        return cls(inputs, outputs)\n", "        return cls(outputs, inputs)\n", ("C08.1-tokens",)),
